@@ -120,8 +120,8 @@ Proof.
     replace (k <? i) with true by lia. replace (k <? j) with true by lia.
     split; [|reflexivity].
     destruct (i <? j) eqn:Eij; [|destruct (j <? i) eqn:Eji].
-    + replace (k =? i) with false by lia. replace ((i <? k) && (k <? j)) with false by lia. replace (k =? j) with false by lia. reflexivity.
-    + replace (k =? j) with false by lia. replace ((j <? k) && (k <? i)) with false by lia. replace (k =? i) with false by lia. reflexivity.
+    + replace (k =? i) with false by lia. replace (i <? k) with false by lia. replace (k =? j) with false by lia. reflexivity.
+    + replace (k =? j) with false by lia. replace (j <? k) with false by lia. replace (k =? i) with false by lia. reflexivity.
     + replace (k =? i) with false by lia. reflexivity.
 Qed.
 
@@ -158,43 +158,46 @@ Proof.
   induction term as [|t r IH]; intros ops par Hl Hin; cbv zeta.
   - cbn [fold_left fst snd total_parity fold_right]. repeat split; [exact Hl | | destruct par; reflexivity].
     intros m _. unfold phys_word. cbn. rewrite app_nil_r. reflexivity.
-  - cbn [fold_left]. unfold tol_step at 2. cbn [fst snd andb].
-    set (j := Z.to_nat (it_site t - imin)).
-    assert (Ht : imin <= it_site t < imin + Z.of_nat n) by (apply Hin; left; reflexivity).
-    set (ops1 := app_at ops j (Op (it_op t) (it_f t))).
+  - destruct t as [o s f]. cbn [fold_left].
+    set (j := Z.to_nat (s - imin)).
+    assert (Ht : imin <= s < imin + Z.of_nat n) by (apply (Hin (mkItem o s f)); left; reflexivity).
+    set (ops1 := app_at ops j (Op o f)).
     assert (Hl1 : length ops1 = n) by (unfold ops1; rewrite app_at_length; exact Hl).
-    destruct (it_f t) eqn:Ef.
+    assert (Hstep : tol_step true imin (ops, par) (mkItem o s f) = if f then (app_below ops1 j JWl, negb par) else (ops1, par))
+      by reflexivity.
+    rewrite Hstep. clear Hstep.
+    destruct f; cbv beta iota.
     + specialize (IH (app_below ops1 j JWl) (negb par)).
       rewrite app_below_length in IH. specialize (IH Hl1 (fun t' H' => Hin t' (or_intror H'))). cbv zeta in IH.
       destruct IH as (H1 & H2 & H3). repeat split; [exact H1 | |].
       * intros m Hm. rewrite (H2 m Hm). rewrite app_below_nth by lia. unfold ops1. rewrite app_at_nth by lia.
-        unfold phys_word. cbn [flat_map]. unfold phys_letters at 2. rewrite Ef. cbn [andb].
+        unfold phys_word. cbn [flat_map]. unfold phys_letters at 2. cbn [it_op it_site it_f andb].
         rewrite <- !app_assoc. f_equal. rewrite app_assoc. f_equal.
         destruct (Nat.eqb m j) eqn:E1.
-        -- apply Nat.eqb_eq in E1. replace (it_site t =? imin + Z.of_nat m) with true by (unfold j in E1; lia).
+        -- apply Nat.eqb_eq in E1. replace (s =? imin + Z.of_nat m) with true by (unfold j in E1; lia).
            replace (m <? j)%nat with false by lia. reflexivity.
-        -- apply Nat.eqb_neq in E1. replace (it_site t =? imin + Z.of_nat m) with false by (unfold j in E1; lia).
+        -- apply Nat.eqb_neq in E1. replace (s =? imin + Z.of_nat m) with false by (unfold j in E1; lia).
            destruct (m <? j)%nat eqn:E2.
-           ++ replace (imin + Z.of_nat m <? it_site t) with true by (unfold j in E2; lia). reflexivity.
-           ++ replace (imin + Z.of_nat m <? it_site t) with false by (unfold j in E2, E1; lia). reflexivity.
-      * rewrite H3. cbn [total_parity fold_right]. fold (total_parity r). rewrite Ef. destruct par, (total_parity r); reflexivity.
+           ++ replace (imin + Z.of_nat m <? s) with true by (unfold j in E2; lia). reflexivity.
+           ++ replace (imin + Z.of_nat m <? s) with false by (unfold j in E2, E1; lia). reflexivity.
+      * rewrite H3. cbn [total_parity fold_right it_f]. fold (total_parity r). destruct par, (total_parity r); reflexivity.
     + specialize (IH ops1 par Hl1 (fun t' H' => Hin t' (or_intror H'))). cbv zeta in IH.
       destruct IH as (H1 & H2 & H3). repeat split; [exact H1 | |].
       * intros m Hm. rewrite (H2 m Hm). unfold ops1. rewrite app_at_nth by lia.
-        unfold phys_word. cbn [flat_map]. unfold phys_letters at 2. rewrite Ef. cbn [andb].
+        unfold phys_word. cbn [flat_map]. unfold phys_letters at 2. cbn [it_op it_site it_f andb].
         rewrite <- !app_assoc. f_equal. f_equal.
         destruct (Nat.eqb m j) eqn:E1.
-        -- apply Nat.eqb_eq in E1. replace (it_site t =? imin + Z.of_nat m) with true by (unfold j in E1; lia). reflexivity.
-        -- apply Nat.eqb_neq in E1. replace (it_site t =? imin + Z.of_nat m) with false by (unfold j in E1; lia). reflexivity.
-      * rewrite H3. cbn [total_parity fold_right]. fold (total_parity r). rewrite Ef. destruct par, (total_parity r); reflexivity.
+        -- apply Nat.eqb_eq in E1. replace (s =? imin + Z.of_nat m) with true by (unfold j in E1; lia). reflexivity.
+        -- apply Nat.eqb_neq in E1. replace (s =? imin + Z.of_nat m) with false by (unfold j in E1; lia). reflexivity.
+      * rewrite H3. cbn [total_parity fold_right it_f]. fold (total_parity r). destruct par, (total_parity r); reflexivity.
 Qed.
 
 Lemma min_site_le term : forall d t, In t term -> fold_right (fun t m => Z.min (it_site t) m) d term <= it_site t.
-Proof. induction term as [|x r IH]; intros d t [H|H]; cbn [fold_right]; [subst; lia | specialize (IH d t H); lia]. Qed.
+Proof. induction term as [|x r IH]; intros d t Hin; [destruct Hin|]. destruct Hin as [H|H]; cbn [fold_right]; [subst; lia | specialize (IH d t H); lia]. Qed.
 Lemma max_site_ge term : forall d t, In t term -> it_site t <= fold_right (fun t m => Z.max (it_site t) m) d term.
-Proof. induction term as [|x r IH]; intros d t [H|H]; cbn [fold_right]; [subst; lia | specialize (IH d t H); lia]. Qed.
+Proof. induction term as [|x r IH]; intros d t Hin; [destruct Hin|]. destruct Hin as [H|H]; cbn [fold_right]; [subst; lia | specialize (IH d t H); lia]. Qed.
 
-Lemma nth_map_app (ops : list word) x m : (m < length ops)%nat ->
+Lemma nth_map_app (ops : list (list letter)) x m : (m < length ops)%nat ->
   nth m (map (fun w => w ++ [x]) ops) [] = nth m ops [] ++ [x].
 Proof.
   revert m. induction ops as [|w r IH]; intros m Hm; [cbn in Hm; lia|].
@@ -211,7 +214,7 @@ Lemma term_to_ops_list_spec term jfr : term <> [] ->
      nth (Z.to_nat (k - imin)) ops [] = phys_word term k ++ (if from_right then [JWl] else [])) /\
   extra = match jfr with Some b => xorb (total_parity term) b | None => total_parity term end.
 Proof.
-  intros Hne. unfold term_to_ops_list.
+  intros Hne. unfold term_to_ops_list. cbv beta iota zeta.
   set (imin := min_site term). set (n := Z.to_nat (max_site term - imin + 1)).
   assert (Hb : forall t, In t term -> imin <= it_site t <= max_site term).
   { intros t Ht. split; [apply min_site_le; exact Ht | apply max_site_ge; exact Ht]. }
@@ -220,22 +223,60 @@ Proof.
   pose proof (tol_fold imin n term (repeat [] n) false (repeat_length _ _)) as HF.
   assert (Hin : forall t, In t term -> imin <= it_site t < imin + Z.of_nat n).
   { intros t Ht. specialize (Hb t Ht). unfold n. lia. }
-  specialize (HF Hin). cbv zeta in HF. destruct HF as (H1 & H2 & H3).
-  set (st := fold_left (tol_step true imin) term (repeat [] n, false)) in *.
+  specialize (HF Hin). cbv zeta in HF. destruct HF as (H1 & H2 & H3). unfold word in *.
+  match type of H1 with length (fst ?S0) = _ => set (st := S0) in * end.
   rewrite xorb_false_l in H3.
   assert (Hnth0 : forall m, (m < n)%nat -> nth m (repeat (@nil letter) n) [] = []).
   { intros m Hm. apply nth_repeat. }
-  split; [reflexivity|]. split.
-  - destruct jfr as [[|]|]; [rewrite map_length | | destruct (snd st); [rewrite map_length|]]; rewrite H1; unfold n; lia.
-  - split.
-    + intros k Hk. assert (Hm : (Z.to_nat (k - imin) < n)%nat) by (unfold n; lia).
-      assert (Hw : nth (Z.to_nat (k - imin)) (fst st) [] = phys_word term k).
-      { rewrite (H2 _ Hm). rewrite Hnth0 by exact Hm. cbn [app]. f_equal. lia. }
-      destruct jfr as [[|]|].
-      * rewrite nth_map_app by lia. rewrite Hw. reflexivity.
-      * rewrite Hw. rewrite app_nil_r. reflexivity.
-      * rewrite H3. destruct (total_parity term).
-        -- rewrite nth_map_app by lia. rewrite Hw. reflexivity.
-        -- rewrite Hw. rewrite app_nil_r. reflexivity.
-    + destruct jfr as [b|]; rewrite H3; reflexivity.
+  assert (Hw : forall k, imin <= k <= max_site term ->
+            nth (Z.to_nat (k - imin)) (fst st) [] = phys_word term k /\ (Z.to_nat (k - imin) < length (fst st))%nat).
+  { intros k Hk. assert (Hm : (Z.to_nat (k - imin) < n)%nat) by (unfold n; lia). split; [|rewrite H1; exact Hm].
+    rewrite (H2 _ Hm). rewrite Hnth0 by exact Hm. cbn [app]. f_equal. lia. }
+  assert (Hlen : Z.of_nat (length (fst st)) = max_site term - imin + 1) by (rewrite H1; unfold n; lia).
+  split; [reflexivity|].
+  destruct jfr as [[|]|]; cbv beta iota.
+  - split; [rewrite map_length; exact Hlen|]. split; [|rewrite H3; reflexivity].
+    intros k Hk. destruct (Hw k Hk) as [Hw1 Hw2]. rewrite nth_map_app by exact Hw2. rewrite Hw1. reflexivity.
+  - split; [exact Hlen|]. split; [|rewrite H3; reflexivity].
+    intros k Hk. destruct (Hw k Hk) as [Hw1 Hw2]. rewrite Hw1, app_nil_r. reflexivity.
+  - rewrite H3. destruct (total_parity term); cbv beta iota.
+    + split; [rewrite map_length; exact Hlen|]. split; [|reflexivity].
+      intros k Hk. destruct (Hw k Hk) as [Hw1 Hw2]. rewrite nth_map_app by exact Hw2. rewrite Hw1. reflexivity.
+    + split; [exact Hlen|]. split; [|reflexivity].
+      intros k Hk. destruct (Hw k Hk) as [Hw1 Hw2]. rewrite Hw1, app_nil_r. reflexivity.
+Qed.
+
+(* ---------- further statements of Props/C08.v ---------- *)
+Lemma no_string_left_of_term : forall term k, total_parity term = false ->
+  (forall t, In t term -> k < it_site t) -> nf (phys_word term k) = (false, false, []).
+Proof.
+  intros term k Hp Hk. rewrite nf_phys.
+  assert (H : forall r, (forall t, In t r -> k < it_site t) -> sgn_at r k = false /\ jw_gt r k = total_parity r /\ ops_at r k = []).
+  { induction r as [|t r IH]; intros Hr; [repeat split|].
+    destruct (IH (fun t' H' => Hr t' (or_intror H'))) as (H1 & H2 & H3).
+    pose proof (Hr t (or_introl eq_refl)) as Ht.
+    unfold ops_at in *. cbn [sgn_at jw_gt filter total_parity fold_right]. fold (total_parity r).
+    replace (it_site t =? k) with false by lia. replace (k <? it_site t) with true by lia.
+    unfold ops_at. rewrite H1, H2, H3. cbn [map odd_count]. rewrite !andb_false_r, andb_true_r. repeat split. }
+  destruct (H term Hk) as (H1 & H2 & H3). rewrite H1, H2, H3, Hp. reflexivity.
+Qed.
+
+Lemma auto_opstr_spec : forall need sof,
+  (forallb (fun b => negb b) need = true -> auto_opstr need sof = Some None) /\
+  (need <> [] -> forallb (fun b => b) need = true -> sof = true -> exists s, auto_opstr need sof = Some (Some s) /\ forall k, s k = JWl).
+Proof.
+  intros need sof. split.
+  - intros H. unfold auto_opstr. replace (existsb (fun b => b) need) with false; [reflexivity|].
+    induction need as [|b r IH]; [reflexivity|]. cbn [forallb existsb] in *. apply andb_prop in H. destruct H as [H1 H2].
+    destruct b; [discriminate|]. cbn [orb]. apply IH. exact H2.
+  - intros Hne H ->. unfold auto_opstr. rewrite H.
+    destruct need as [|b r]; [congruence|]. cbn [forallb] in H. apply andb_prop in H. destruct H as [H1 _]. rewrite H1.
+    cbn [existsb orb]. eexists. split; [reflexivity | intros k; reflexivity].
+Qed.
+
+Lemma hermitian_only_equal_sites : forall flag s1 s2, use_hermitian flag s1 s2 = true -> flag = true /\ s1 = s2.
+Proof.
+  intros flag s1 s2 H. unfold use_hermitian in H. apply andb_prop in H. destruct H as [H1 H2]. split; [exact H1|].
+  revert s2 H2. induction s1 as [|x r IH]; intros [|y r2] H2; cbn [zlist_eqb] in H2; try discriminate; [reflexivity|].
+  apply andb_prop in H2. destruct H2 as [Hx Hr]. f_equal; [lia | apply IH; exact Hr].
 Qed.
